@@ -72,7 +72,7 @@ def options(kind: str, ad, tier: str) -> list:
                     ['w%d' % i for i in range(200)], ['', 'x' * 128], ['ends ', ' starts', '12', '1E5'],
                     ['t%d' % i for i in range(15)], ['t%d' % i for i in range(16)], ['t%d' % i for i in range(17)]]
         return ['Some text', '', 'x' * 127, 'x' * 128, 'y' * 300, 'ends with a blank ', ' starts with a blank', '12.5', '007',
-                '1E5', 'two  blanks', 'line\nbreak'] + (['z' * 16383, 'z' * 16384, 'z' * 16385] if big else [])
+                '1E5', 'two  blanks', 'line\nbreak', 'caf\u00e9 10 \u00b0C'] + (['z' * 16383, 'z' * 16384, 'z' * 16385] if big else [])
     if t == 'ident':
         return ['IDENT-1', 'a', 'I' * 127, 'I' * 128, 'I' * 255, 'TRAILING ', ' LEADING', '12', '1E5']
     if t == 'enum':
